@@ -246,6 +246,72 @@ def prop_inter(rule_tags, action, put_tags, add_at, self_bound=False) -> bool:
         return bound == []
 
 
+def prop_inter2(t1, a1, s1, t2, a2, s2, put_tags, swap) -> bool:
+    """Two single-tag rules on one InterWorkflowPort (each self-bound or bound to its own other
+    port), added before the puts in either order. Clauses the statement fixes, independent of what
+    happens to tokens put after a rule completed:
+      - no consumer of the local port sees any token twice, and tokens keep their put order;
+      - if no self-bound rule ever completes, the local port carries exactly the puts;
+      - a boundary port receives nothing before its rule completes and then first the completing
+        token (PROPAGATE) / the RECOVERED termination (TERMINATE)."""
+    from streamflow.core.workflow import Status, Token
+    from streamflow.workflow.port import BoundaryAction, InterWorkflowPort
+
+    def act(a):
+        if a == 1:
+            return BoundaryAction.PROPAGATE
+        if a == 2:
+            return BoundaryAction.TERMINATE
+        return BoundaryAction.PROPAGATE | BoundaryAction.TERMINATE
+
+    ctx, wf, loop = _mk()
+    with loop:
+        port = wf.create_port(cls=InterWorkflowPort, name="p")
+        o1 = wf.create_port(name="b1")
+        o2 = wf.create_port(name="b2")
+        rules = [(t1, a1, s1, o1), (t2, a2, s2, o2)]
+        if swap:
+            rules = [rules[1], rules[0]]
+        for t, a, sb, o in rules:
+            port.add_inter_port(port if sb else o, ["0." + str(t)], act(a))
+        toks = [Token(value=j, tag="0." + str(g)) for j, g in enumerate(put_tags)]
+        for tk in toks:
+            port.put(tk)
+        local_vals = [t.value for t in port.token_list if not _is_term(t)]
+        # exactly once, in order
+        for i in range(len(local_vals)):
+            for k in range(i + 1, len(local_vals)):
+                if local_vals[i] >= local_vals[k]:
+                    return False
+        rec = int(Status.RECOVERED)
+        any_self_completes = False
+        for t, a, sb, o in rules:
+            comp = None
+            for j, g in enumerate(put_tags):
+                if comp is None and g == t:
+                    comp = j
+            if sb:
+                if comp is not None:
+                    any_self_completes = True
+                continue
+            got = [("T", int(x.value)) if _is_term(x) else ("v", x.value) for x in o.token_list]
+            if comp is None:
+                if got != []:
+                    return False
+            else:
+                want = []
+                if a != 2:
+                    want.append(("v", comp))
+                if a != 1:
+                    want.append(("T", rec))
+                if got[: len(want)] != want:
+                    return False
+        if not any_self_completes:
+            if local_vals != list(range(len(put_tags))) or any(_is_term(t) for t in port.token_list):
+                return False
+        return True
+
+
 # ---------------------------------------------------------------- obligations
 
 IMPORTS = "from harness.C03 import *"
@@ -366,6 +432,28 @@ def specs(tier: str):
                 path=60,
                 bound=f"self-bound rule with {nr} distinct tags added before {npt} puts with distinct tags, components 0..{hi}, any action",
                 symbolic=f"{nr + npt} tag components, action",
+                targets=T_INTER,
+            )
+        )
+    # (c'') two rules on one port (a self-bound and a foreign-bound rule may complete on the same put)
+    for npt in (2,) if quick else (2, 3):
+        ss = [f"s{i}" for i in range(npt)]
+        pre = [f"0 <= {x} <= 3" for x in ["t1", "t2"] + ss]
+        pre += [f"{a} != {b}" for i, a in enumerate(ss) for b in ss[i + 1 :]]
+        out.append(
+            Spec(
+                name=f"inter_two_rules_p{npt}",
+                group="(c'') two rules on one port: no duplicate local delivery, each boundary port served exactly at completion",
+                source=mk_source(
+                    IMPORTS,
+                    ", ".join(["t1: int", "a1: int", "sb1: bool", "t2: int", "a2: int", "sb2: bool", "swap: bool"] + [f"{x}: int" for x in ss]),
+                    pre + ["1 <= a1 <= 3", "1 <= a2 <= 3", "not (sb1 and sb2)"],
+                    f"prop_inter2(t1, a1, sb1, t2, a2, sb2, [{', '.join(ss)}], swap)",
+                ),
+                cond=900 if quick else 3000,
+                path=60,
+                bound=f"two single-tag rules (tags symbolic 0..3, possibly equal), each self-bound or bound to its own port (symbolic, at most one self-bound: the failure manager never registers two self-bound rules on a port), any action, registered in either order before {npt} puts with distinct symbolic tags 0..3",
+                symbolic="2 rule tags, 2 actions, 2 self-bound flags, registration order, put tags",
                 targets=T_INTER,
             )
         )
